@@ -338,6 +338,55 @@ static int __check_key_bits(jwt_t *jwt)
 	return 1; // LCOV_EXCL_LINE
 }
 
+/* An alg is only ever evaluated with a key of its own family. The alg enums
+ * are all setkey() compares, so a key without an "alg" can be paired with
+ * any alg. */
+static int __check_key_type(jwt_t *jwt)
+{
+	jwk_key_type_t kty = JWK_KEY_TYPE_NONE;
+
+	switch (jwt->alg) {
+	case JWT_ALG_HS256:
+	case JWT_ALG_HS384:
+	case JWT_ALG_HS512:
+		kty = JWK_KEY_TYPE_OCT;
+		break;
+
+	case JWT_ALG_RS256:
+	case JWT_ALG_RS384:
+	case JWT_ALG_RS512:
+	case JWT_ALG_PS256:
+	case JWT_ALG_PS384:
+	case JWT_ALG_PS512:
+		kty = JWK_KEY_TYPE_RSA;
+		break;
+
+	case JWT_ALG_ES256:
+	case JWT_ALG_ES256K:
+	case JWT_ALG_ES384:
+	case JWT_ALG_ES512:
+		kty = JWK_KEY_TYPE_EC;
+		break;
+
+	case JWT_ALG_EDDSA:
+		kty = JWK_KEY_TYPE_OKP;
+		break;
+
+	// LCOV_EXCL_START
+	default:
+		break;
+	// LCOV_EXCL_STOP
+	}
+
+	if (jwt->key->kty == kty)
+		return 0;
+
+	jwt_write_error(jwt, "JWT[%s]: Key type does not match alg",
+			jwt_ops->name);
+
+	return 1;
+}
+
 static int sign_sha_hmac(jwt_t *jwt, char **out, unsigned int *len,
 			 const char *str, unsigned int str_len)
 {
@@ -409,6 +458,8 @@ int jwt_sign(jwt_t *jwt, char **out, unsigned int *len, const char *str,
 	case JWT_ALG_HS512:
 		if (__check_hmac(jwt))
 			return 1;
+		if (__check_key_type(jwt))
+			return 1;
 		if (sign_sha_hmac(jwt, out, len, str, str_len)) {
 			/* There's not really a way to induce failure here,
 			 * and there's not really much of a chance this can fail
@@ -442,6 +493,8 @@ int jwt_sign(jwt_t *jwt, char **out, unsigned int *len, const char *str,
 	case JWT_ALG_EDDSA:
 		if (__check_key_bits(jwt))
 			return 1;
+		if (__check_key_type(jwt))
+			return 1;
 		if (jwt_ops->sign_sha_pem(jwt, out, len, str, str_len)) {
 			jwt_write_error(jwt, "Token failed signing");
 			return 1;
@@ -465,6 +518,10 @@ static int _verify_sha_hmac(jwt_t *jwt, const char *head,
 	char_auto *buf = NULL;
 	unsigned int res_len;
 	int ret;
+
+	/* No HMAC with anything but an octet key, it cannot verify */
+	if (jwt->key->kty != JWK_KEY_TYPE_OCT)
+		return 1;
 
 	ret = jwt_sign(jwt, &res, &res_len, head, head_len);
 	if (ret)
@@ -511,6 +568,8 @@ jwt_t *jwt_verify_sig(jwt_t *jwt, const char *head, unsigned int head_len,
 	/* EdDSA */
 	case JWT_ALG_EDDSA:
 		if (__check_key_bits(jwt))
+			break;
+		if (__check_key_type(jwt))
 			break;
 
 		sig = jwt_base64uri_decode(sig_b64, &sig_len);
